@@ -83,6 +83,16 @@ let parse_shape (s : string) : chain =
     end
     else if eat "b64enc(" then (let n = build () in ignore (eat ")"); Stage (b64enc_T, [], n))
     else if eat "b64dec(" then (let n = build () in ignore (eat ")"); Stage (b64dec_T, [], n))
+    else if eat "hash:" then begin
+      let st = !pos in
+      while s.[!pos] <> '(' do incr pos done;
+      let name = String.sub s st (!pos - st) in
+      incr pos;
+      let h = (match name with "S1" -> SHA1 | "S224" -> SHA224 | "S256" -> SHA256 | "S384" -> SHA384
+               | "S512" -> SHA512 | _ -> failwith "model: unknown hash") in
+      let n = build () in ignore (eat ")");
+      Stage (atdone_T (fun m -> Some (hash h m)), [], n)
+    end
     else if eat "plexany(" then plex false
     else if eat "plexall(" then plex true
     else failwith "model: unknown shape"
